@@ -354,11 +354,14 @@ theorem loopPrep_stay_phys {s : Rebuild w} {ps : List (Rebuild w)} {sub1 : Rebui
       r.1.insts = s.insts ++ comps.map Instr.calc ∧ SameHdr s r.1 ∧
       PhysStep s r.1 (comps.map Instr.calc) ∧ KeysMono s r.1 ∧ ReadsMono s r.1 ∧
       (r.1.subShift = false → ∀ v, (v ∈ sub1.reads ∨ v = cond) → v ∈ mKeys r.1.written ∨ v ∈ r.1.reads) ∧
-      (r.1.subShift = false → ∀ v, ClobSet L C sub1 v → v ∈ mKeys r.1.written) := by
+      (r.1.subShift = false → ∀ v, ClobSet L C sub1 v → v ∈ mKeys r.1.written) ∧
+      (r.1.subShift = false → ∀ v ∈ mKeys sub1.written, C.contains v = true →
+        v ∈ mKeys r.1.written ∨ v ∈ r.1.reads) := by
   obtain ⟨s1, s2, s3, os1, os2, e1, e2, e3, rfl⟩ := loopPrep_stay_cut hns hr
   obtain ⟨c1, r1, f1⟩ := emitReadAll_foot ps _ hwf e1
   obtain ⟨_, _, k1⟩ := emitReadAll_reads ps _ hwf e1
-  obtain ⟨c2, r2, f2⟩ := emitAll_foot ps _ r1.wf e2
+  obtain ⟨c2, r2, f2⟩ := emitReadAll_foot ps _ r1.wf e2
+  obtain ⟨_, _, k2⟩ := emitReadAll_reads ps _ r1.wf e2
   obtain ⟨c3, q1, q2, q3, q4⟩ := clobberPhase_phys ps { sub1 with reads := sIns sub1.reads cond } L C r2.wf e3
   have hcz := condZero_same s3 { sub1 with reads := sIns sub1.reads cond } cond
   have hczr : (condZero s3 { sub1 with reads := sIns sub1.reads cond } cond).reads = s3.reads :=
@@ -384,7 +387,7 @@ theorem loopPrep_stay_phys {s : Rebuild w} {ps : List (Rebuild w)} {sub1 : Rebui
     rcases hv with h | h
     · exact Or.inr h
     · exact Or.inl h
-  refine ⟨c1 ++ c2 ++ c3, rfl, ?_, ?_, ?_, hf3.keysMono.trans hk hm, hm3.trans hm, ?_, ?_⟩
+  refine ⟨c1 ++ c2 ++ c3, rfl, ?_, ?_, ?_, hf3.keysMono.trans hk hm, hm3.trans hm, ?_, ?_, ?_⟩
   · show (condZero s3 _ cond).insts = _
     rw [hcz.2.2.2.2.2.2.2.2.2.1, q1, r2.insts, r1.insts]
     simp
@@ -412,6 +415,16 @@ theorem loopPrep_stay_phys {s : Rebuild w} {ps : List (Rebuild w)} {sub1 : Rebui
   · intro hss v hv
     have hs3 : s3.subShift = false := by rw [← hczs]; exact hss
     exact hczk v (q4 hs3 v hv)
+  · intro hss v hv hC
+    have hs3 : s3.subShift = false := by rw [← hczs]; exact hss
+    have hmem : v ∈ (mKeys sub1.written).filter (fun var => C.contains var) :=
+      List.mem_filter.2 ⟨hv, hC⟩
+    rcases k2 v hmem with h | h
+    · right
+      rw [hczr]
+      exact q3.1 v h
+    · left
+      exact hczk v (q2.keysMono hs3 v h.mem_keys)
 
 /-- The push of the `Loop` / `If` after the preparation (child `sub1` after its own emission). -/
 theorem loopOrIf_stay_phys_core {s : Rebuild w} {ps : List (Rebuild w)} {sub1 : Rebuild w} {cond : Int}
@@ -419,10 +432,7 @@ theorem loopOrIf_stay_phys_core {s : Rebuild w} {ps : List (Rebuild w)} {sub1 : 
     (hns : (sub1.subShift || sub1.shift != s.shift) = false)
     {os os' : Orders} {r : Rebuild w × Rebuild w × List Int}
     (hr : (loopPrep s ps sub1 cond L C).run os = .ok (r, os'))
-    (hne : L.noEffect = false)
-    (hconstRead : ∀ v ∈ mKeys sub1.written, C.contains v = true →
-      v ∈ (loopTail r.1 r.2.1 cond isLoop L hflag r.2.2).reads ∨
-      v ∈ mKeys (loopTail r.1 r.2.1 cond isLoop L hflag r.2.2).written) :
+    (hne : L.noEffect = false) :
     ∃ new, (loopTail r.1 r.2.1 cond isLoop L hflag r.2.2).insts = s.insts ++ new ∧
       PhysStep s (loopTail r.1 r.2.1 cond isLoop L hflag r.2.2) new ∧
       KeysMono s (loopTail r.1 r.2.1 cond isLoop L hflag r.2.2) ∧
@@ -430,7 +440,7 @@ theorem loopOrIf_stay_phys_core {s : Rebuild w} {ps : List (Rebuild w)} {sub1 : 
   have hns' := hns
   simp only [Bool.or_eq_false_iff, bne_eq_false_iff_eq] at hns'
   obtain ⟨hss1, hshEq⟩ := hns'
-  obtain ⟨comps, hsubR, p1, p2, p3, p4, p5, p6, p7⟩ := loopPrep_stay_phys hwf hns hr
+  obtain ⟨comps, hsubR, p1, p2, p3, p4, p5, p6, p7, p8⟩ := loopPrep_stay_phys hwf hns hr
   obtain ⟨t1, _, _, t4, t5, _, t7⟩ := loopTail_fields r.1 r.2.1 cond isLoop L hflag r.2.2
   have hbs : r.2.1.shift - r.1.shift = 0 := by
     rw [hsubR, p2.2.2.1]
@@ -460,7 +470,10 @@ theorem loopOrIf_stay_phys_core {s : Rebuild w} {ps : List (Rebuild w)} {sub1 : 
       intro v hv
       rcases tgC v hv with h | h
       · cases hC : C.contains v with
-        | true => exact (hconstRead v h hC).symm
+        | true =>
+          rcases p8 hssP v h hC with h' | h'
+          · exact Or.inl (hkeys v h')
+          · exact Or.inr (by rw [t4]; exact h')
         | false =>
           left
           apply hkeys
@@ -492,11 +505,7 @@ theorem loopOrIf_stay_phys {s : Rebuild w} {ps : List (Rebuild w)} {sub : Rebuil
     (hr : (loopOrIf s ps sub cond isLoop L C).run os = .ok (s', os'))
     (hwf : Wf s) (hwfc : Wf sub) (hph : PhysInv sub)
     (hns : (sub.subShift || sub.shift != s.shift) = false)
-    (hne : L.noEffect = false)
-    (hconstRead : ∀ sub1 os1,
-      ((if !sub.noReturn then emitAll [] (pendingSorted sub sub) sub else pure sub : M (Rebuild w)).run os
-        = .ok (sub1, os1)) →
-      ∀ v ∈ mKeys sub1.written, C.contains v = true → v ∈ s'.reads ∨ v ∈ mKeys s'.written) :
+    (hne : L.noEffect = false) :
     ∃ new, s'.insts = s.insts ++ new ∧ PhysStep s s' new ∧ KeysMono s s' ∧ ReadsMono s s' := by
   obtain ⟨sub1, os1, r, h1, h2, rfl⟩ := loopOrIf_run hr
   have hns' := hns
@@ -514,7 +523,7 @@ theorem loopOrIf_stay_phys {s : Rebuild w} {ps : List (Rebuild w)} {sub : Rebuil
   obtain ⟨hhdr, hph1⟩ := hsub1
   have hns1 : (sub1.subShift || sub1.shift != s.shift) = false := by
     rw [hhdr.2.2.2.2, hhdr.2.2.1, hss, hshEq]; simp
-  exact loopOrIf_stay_phys_core _ hwf hph1 hns1 h2 hne (hconstRead sub1 os1 h1)
+  exact loopOrIf_stay_phys_core _ hwf hph1 hns1 h2 hne
 
 /-- `loopOrIf` with a non-moving child preserves `PhysInv`. -/
 theorem loopOrIf_stay_physInv {s : Rebuild w} {ps : List (Rebuild w)} {sub : Rebuild w} {cond : Int}
@@ -523,12 +532,8 @@ theorem loopOrIf_stay_physInv {s : Rebuild w} {ps : List (Rebuild w)} {sub : Reb
     (hwf : Wf s) (hwfc : Wf sub) (hph : PhysInv sub)
     (hns : (sub.subShift || sub.shift != s.shift) = false)
     (hne : L.noEffect = false)
-    (hconstRead : ∀ sub1 os1,
-      ((if !sub.noReturn then emitAll [] (pendingSorted sub sub) sub else pure sub : M (Rebuild w)).run os
-        = .ok (sub1, os1)) →
-      ∀ v ∈ mKeys sub1.written, C.contains v = true → v ∈ s'.reads ∨ v ∈ mKeys s'.written)
     (hp : PhysInv s) : PhysInv s' := by
-  obtain ⟨new, e, p, k, m⟩ := loopOrIf_stay_phys hr hwf hwfc hph hns hne hconstRead
+  obtain ⟨new, e, p, k, m⟩ := loopOrIf_stay_phys hr hwf hwfc hph hns hne
   exact hp.step p k m e
 
 /-- `loopOrIf` with a moving child: `subShift` becomes `true`, `PhysInv` is void. -/
